@@ -10,7 +10,7 @@ for p in props:
     pid = p['id']
     c = claims.get(pid)
     if not c or not c.get('claimed'):
-        na.append({"property_id": pid, "reason": (c or {}).get('reason', 'no harness built yet for this property (engine exists; see DESIGN.md section 4 for the planned harnesses)')})
+        na.append({"property_id": pid, "reason": (c or {}).get('reason', 'no harness registered; see DESIGN.md')})
         continue
     chk = {
         "property_id": pid,
